@@ -60,7 +60,7 @@ func c10Build(in c10Input) ([]mockq.Rec, refmodel.Expr) {
 	}
 	for i, set := range sets {
 		labels := append([]mockq.KV(nil), set...)
-		if in.Shape == "avg-unwrap" {
+		if in.Shape == "avg-unwrap" || in.Shape == "nested" {
 			labels = append(labels, mockq.KV{K: "v", V: "2"})
 		}
 		data = append(data, mockq.Rec{TS: (c09Base + int64(i)) * sec, Line: "", Labels: labels})
@@ -78,6 +78,13 @@ func c10Build(in c10Input) ([]mockq.Rec, refmodel.Expr) {
 		}
 	case "avg-unwrap":
 		e = &refmodel.RangeAgg{Op: "avg_over_time", Unwrap: "v", RangeNS: 10 * sec, Grouping: g}
+	case "nested":
+		// a vector aggregation over a range aggregation that carries its own without clause
+		outer := g
+		if outer == nil {
+			outer = &refmodel.Grouping{Without: true, Labels: []string{"e"}}
+		}
+		e = &refmodel.VecAgg{Op: "count", Grouping: outer, X: &refmodel.RangeAgg{Op: "max_over_time", Unwrap: "v", RangeNS: 10 * sec, Grouping: &refmodel.Grouping{Without: true, Labels: []string{"v"}}}}
 	}
 	return data, e
 }
@@ -225,7 +232,7 @@ func c10Run(r *vkit.Run) {
 		if r.Stop() {
 			break
 		}
-		for _, shape := range []string{"count", "sum-count", "avg-unwrap"} {
+		for _, shape := range []string{"count", "sum-count", "avg-unwrap", "nested"} {
 			for _, g := range c10GroupingNames {
 				if shape == "count" && g != "" {
 					continue // the grammar forbids grouping on count_over_time
